@@ -111,7 +111,7 @@ class Scene(Geometry3D):
           Homogeneous transformation matrix.
         """
         base = self.graph.base_frame
-        for child in self.graph.transforms.children[base]:
+        for child in self.graph.transforms.children.get(base, []):
             combined = np.dot(transform, self.graph[child][0])
             self.graph.update(frame_from=base, frame_to=child, matrix=combined)
         return self
